@@ -80,6 +80,10 @@ func scenarioC16S(x *runner.X) {
 		p.BigObjects = true
 	}
 	w := world.Generate(tapeRng{t.SubRand()}, p)
+	if t.Bool(0.3) && w.HeaderVersionFirst() {
+		// the same header with its two map entries in the other order (legal, not what go-car writes)
+		x.Probe("c16s.header_version_first")
+	}
 	// the model: block groups in file order
 	type group struct{ lo, hi int } // byte range in the original CAR
 	var groups []group
